@@ -136,7 +136,9 @@ def ftype(t):
     binds = []
     inherited_generics = set()
     anc = t.extends
-    while anc is not None and not isinstance(anc, str):
+    seen = []
+    while anc is not None and not isinstance(anc, str) and not any(anc is x for x in seen):
+        seen.append(anc)            # (a malformed file may make a type extend itself)
         inherited_generics.update(squash(b.name) for b in anc.boundprocs if b.generic)
         anc = getattr(anc, "extends", None)
     for b in t.boundprocs:
